@@ -651,6 +651,50 @@ def execute_reenter(program, ctx, mode):
                     entry, 'underflow' if sys.getrefcount(r) < rc_res + 1 else 'leak'),
                     {'case': case, 'before': rc_res, 'after': sys.getrefcount(r)})
 
+    def refbalance_dying_value(case):
+        """a registered value whose last owner is the lookup cache dies while a mutator's changed() drops the caches, and
+        its finalizer looks things up in the same registry (storing into whatever cache the lookup object shows at that
+        moment): over 25 rounds nothing may stay referenced"""
+        S, B, operands = run_case(dict(case, action='relookup_other'))
+        R0, R1, R2, P0, ob, K, _rearm = operands
+        target = V_keep = (lambda *objs: None)
+        S.register((R2,), P0, 'tgt', target)
+
+        class Dying:
+            ran = 0
+
+            def __call__(self_, *objs):
+                return None
+
+            def __del__(self_):
+                Dying.ran += 1
+                S.lookup((R2,), P0, 'tgt')
+                S.lookupAll((R2,), P0)
+                S.subscriptions((R2,), P0)
+
+        def one_round():
+            d_ = Dying()
+            S.register((R2,), P0, 'dy', d_)
+            S.lookup((R2,), P0, 'dy')
+            S.lookupAll((R2,), P0)
+            del d_
+            S.register((R2,), P0, 'dy', target)        # the registry lets go; changed() drops the caches -> __del__ -> lookups
+            S.unregister((R2,), P0, 'dy')
+        one_round()
+        one_round()
+        watched = [R2, P0, target, S]
+        before = [sys.getrefcount(x) for x in watched]
+        for _ in range(25):
+            one_round()
+        after = [sys.getrefcount(x) for x in watched]
+        ctx.probe('refbalance-dying-value-checked')
+        if Dying.ran < 27:
+            ctx.probe('dying-value-finalizer-did-not-run')
+        for nm, b_, a_ in zip(('required', 'provided', 'value', 'registry'), before, after):
+            if a_ != b_:
+                ctx.violation('C11', 'refleak', 'C11|reference-balance|value-dying-while-caches-are-dropped|%s|%s' % (
+                    nm, 'leak' if a_ > b_ else 'underflow'), {'case': case, 'before': b_, 'after': a_})
+
     def refbalance_failing_callback(case):
         """the same for lookups that leave through the error path: the overridden uncached method raises, over and over,
         each time from cold caches; nothing the call took a reference to may stay referenced"""
@@ -710,6 +754,8 @@ def execute_reenter(program, ctx, mode):
             seen_rb.add(key)
             refbalance(case)
             refbalance_failing_callback(case)
+            if case['entry'] == 'lookup':
+                refbalance_dying_value(case)
 
 
 # --------------------------------------------------------------------------
